@@ -931,8 +931,12 @@ void var_opt_sketch<T, A>::decrease_k_by_1() {
     const uint32_t old_final_r_idx = (h_ + 1 + r_) - 1;
     if (old_final_r_idx != k_) throw std::logic_error("gadget in invalid state");
     
+    if (!filled_data_) {
+      // the gap is raw storage: give it an object before swapping into it
+      new (&data_[old_gap_idx]) T(data_[old_final_r_idx]);
+    }
     swap_values(old_final_r_idx, old_gap_idx);
-    filled_data_ = true; // we just filled the gap, and no need to check previous state
+    filled_data_ = true; // the gap now holds an object
 
     // now we pull an item out of H; any item is ok, but if we grab the rightmost and then
     // reduce h_, the heap invariant will be preserved (and the gap will be restored), plus
